@@ -1210,7 +1210,11 @@ class Exec(Engine):
             new = {}
         new.update(env)
         st.env = new
-        body, log = desugar_function(p.node, tuple(self.reg.spec))
+        fnode = p.node
+        if any(isinstance(n_, (ast.Yield, ast.YieldFrom)) for n_ in ast.walk(fnode)):
+            fnode = self._generator_as_list(fnode)
+            self.note(f"{p.key}: generator function evaluated eagerly into a list (it is consumed at once by its caller; lazy interleaving not modelled)")
+        body, log = desugar_function(fnode, tuple(self.reg.spec))
         for l in log:
             self.note(f"{p.key}: {l}")
         cf = Frame(self, st, p.mod, p.key if c is not None else fr.fn_key + "/" + p.key.split(":")[-1].split(".")[-1],
@@ -1228,6 +1232,41 @@ class Exec(Engine):
             else:
                 raise Unsupported("break/continue escaping an inlined function")
         return res
+
+    @staticmethod
+    def _generator_as_list(fnode):
+        """def g(): ... yield e ...   ->   def g(): _yielded = []; ... _yielded.append(e) ...; return _yielded"""
+        import copy
+
+        class Y(ast.NodeTransformer):
+            def visit_FunctionDef(self, n):
+                return n if n is not root else self.generic_visit(n)
+
+            def visit_Lambda(self, n):
+                return n
+
+            def visit_Expr(self, n):
+                if isinstance(n.value, ast.Yield):
+                    v = n.value.value if n.value.value is not None else ast.Constant(None)
+                    call = ast.Call(ast.Attribute(ast.Name("_yielded", ast.Load()), "append", ast.Load()), [v], [])
+                    return ast.copy_location(ast.Expr(call), n)
+                return n
+
+            def visit_Return(self, n):
+                return ast.copy_location(ast.Return(ast.Name("_yielded", ast.Load())), n)
+        root = copy.deepcopy(fnode)
+        for n_ in ast.walk(root):
+            if isinstance(n_, ast.YieldFrom) or (isinstance(n_, ast.Yield) and False):
+                raise Unsupported("yield from")
+        root = Y().visit(root)
+        for n_ in ast.walk(root):
+            if isinstance(n_, ast.Yield):
+                raise Unsupported("yield used as an expression")
+        init = ast.Assign([ast.Name("_yielded", ast.Store())], ast.List([], ast.Load()))
+        ret = ast.Return(ast.Name("_yielded", ast.Load()))
+        root.body = [ast.copy_location(init, root.body[0])] + root.body + [ast.copy_location(ret, root.body[-1])]
+        ast.fix_missing_locations(root)
+        return root
 
     def _nested_contract(self, fr, p):
         # loops of inlined helpers may carry invariants under the caller's contract: 'helper/loopN'
